@@ -564,6 +564,67 @@ func ctlBoundsBadCapLen(s []byte, n int) byte {
 	return s[n-1]
 }
 
+// parity: pairs of bytes; without the test of the length's parity the last
+// pair reads one byte beyond the end
+func ctlBoundsBadParity(in []byte) int {
+	t := 0
+	for i := 4; i < len(in); i += 2 {
+		t += int(in[i])<<8 | int(in[i+1])
+	}
+	return t
+}
+
+func ctlBoundsGoodParity(in []byte) int {
+	if len(in)%2 != 0 {
+		return 0
+	}
+	t := 0
+	for i := 4; i < len(in); i += 2 {
+		t += int(in[i])<<8 | int(in[i+1])
+	}
+	return t
+}
+
+// an odd start with an even length is as bad as an odd length
+func ctlBoundsBadParityStart(in []byte) int {
+	if len(in)%2 != 0 {
+		return 0
+	}
+	t := 0
+	for i := 3; i < len(in); i += 2 {
+		t += int(in[i])<<8 | int(in[i+1])
+	}
+	return t
+}
+
+// words collected from byte pairs: their number is half the bytes consumed
+func ctlBoundsGoodStride(in []byte, n int) []uint16 {
+	if len(in)%2 != 0 || n < 0 || 2*n+6 > len(in) {
+		return nil
+	}
+	var words []uint16
+	for i := 6; i < len(in); i += 2 {
+		words = append(words, uint16(in[i])<<8|uint16(in[i+1]))
+	}
+	return words[:n]
+}
+
+func ctlBoundsBadStride(in []byte, n int) []uint16 {
+	if len(in)%2 != 0 || n < 0 || n+6 > len(in) {
+		return nil
+	}
+	var words []uint16
+	for i := 6; i < len(in); i += 2 {
+		words = append(words, uint16(in[i])<<8|uint16(in[i+1]))
+	}
+	return words[:n]
+}
+
+// CtlBoundsUse3 keeps the third batch reachable.
+func CtlBoundsUse3(in []byte) int {
+	return ctlBoundsBadParity(in) + ctlBoundsGoodParity(in) + ctlBoundsBadParityStart(in) + len(ctlBoundsGoodStride(in, 1)) + len(ctlBoundsBadStride(in, 1))
+}
+
 // CtlBoundsUse2 keeps the second batch reachable.
 func CtlBoundsUse2(s []byte, m map[string]int, c *ctlCounter, tbl *[256]int, marks []bool) int {
 	t := int(ctlBoundsBadIgnoredErr(s, 2)) + int(ctlBoundsGoodContract(s, 2)) + int(ctlBoundsBadRem(s, -1)) + int(ctlBoundsGoodRem(s, 1))
